@@ -8,3 +8,4 @@ function(add_sim_engine name)
 endfunction()
 
 add_sim_engine(dssim ${VERIF_DIR}/engines/dssim.cpp)
+add_sim_engine(plansim ${VERIF_DIR}/engines/plansim.cpp ${VERIF_DIR}/engines/planners_geo.cpp)
